@@ -156,6 +156,9 @@ sink_fields += [
     fld("DursI", "int64", stdDuration=True, card="repeated"),
     fld("DurC", "int64", castType="Duration"),
     fld("DursC", "int64", castType="Duration", card="repeated"),
+    # cast types whose names END with the custom duration type's name: ordinary casts, not durations
+    fld("IsoC", "string", castType="ISODuration"),
+    fld("MaxC", "int64", castType="MaxDuration"),
     m("InnerP", "Inner", comment=" nested by pointer\n"),
     m("InnerV", "Inner", nullable="false"),
     m("Inners", "Inner", card="repeated"),
@@ -255,7 +258,7 @@ case = {
         "durationCustomType": "Duration",
         "sort": False,
         "useStateForUnknownByDefault": True,
-        "excludeFields": ["Sink.Excluded", "Wrap.S.InnerP.Secret", "Inner.EmbFlag", "DepLabel.Note"],
+        "excludeFields": ["Sink.Excluded", "Sink.PB", "Inner.IB", "Wrap.S.InnerP.Secret", "Inner.EmbFlag", "DepLabel.Note"],
         "requiredFields": ["Sink.SString", "Wrap.ByName.Name", "Leaf.Num", "DepLabel.Key"],
         "computedFields": ["Sink.SInt32", "Sink.InnerP.Name", "Wrap.S.Inners.LeafList.Str", "Sink.CustomA", "Emb.EmbNum", "Sink.EmbStr"],
         "sensitiveFields": ["Inner.Secret", "Wrap.S.InnerMap.Leaves.Data", "Sink.CustomB", "DepLabel.Value"],
